@@ -170,7 +170,9 @@ def ctx_model(chk, size, relevant, simulate=None, workers=12, timeout=1500):
     info, summ = vf.run_model(tag, "MC_Ctx.tla", {"Size": size, "WithSerde": False}, chk.outdir,
                               invariants=("TypeOK",), properties=CTX_PROPS, view="View", constraint="InDomain",
                               workers=workers, timeout=timeout, env_extra={"PRIMS": prims}, simulate=simulate)
-    ops = ["set_value", "eval", "get_value", "clear_variables", "clear_functions", "clear", "set_function", "set_builtins", "clone"]
+    ops = ["set_value", "eval", "get_value", "clear_variables", "clear_functions", "clear", "set_function", "set_builtins"]
+    if size != "names2":
+        ops.append("clone")
     chk.add_model(info, summ, relevant, ["history_len2"], exhaustive=simulate is None,
                   must_occur=[f"history_last_{o}" for o in ops],
                   note=f"MC_Ctx.tla size={size}: all reachable abstract context states x all operations"
@@ -183,9 +185,10 @@ def c04(chk):
                 "non-trivial = distinct histories of at least two operations")
     if chk.tier == "quick":
         ctx_model(chk, "small", {"history", "panic"})
+        ctx_model(chk, "names2", {"history", "panic"})
     else:
         ctx_model(chk, "small", {"history", "panic"}, workers=16)
-        ctx_model(chk, "full", {"history", "panic"}, simulate=(3000, 40))
+        ctx_model(chk, "names2", {"history", "panic"}, workers=16, timeout=3000)
     traces(chk, "histories", "trace_histories", quick=(4, 1500), thorough=(16, 8000),
            note="random histories of 200 operations over 12 names and two slots with full-range values; the abstract contexts "
                 "are carried along by Trace_Api.tla and every recorded projection must equal them")
